@@ -306,7 +306,8 @@ func c14e2eMain(triggered bool) {
 					ri, m := r.intn(len(replicas)), r.intn(n)
 					old := repOf[ri]
 					repOf[ri] = m
-					ops = append(ops, fmt.Sprintf("mr%d,%d", replicas[ri], m))
+					ops = append(ops, fmt.Sprintf("mr%d,%d", replicas[ri], m), "w")
+					// (w: with a periodic refresh the table is current again; without one w does nothing)
 					// reads of the former master's keys: the moved replica still gets some, says MOVED once, and the refresh
 					// that redirection triggers must end it
 					for y, cnt := 0, 0; y < 60 && cnt < 10; y++ {
